@@ -182,6 +182,8 @@ pub fn add_arity4_leaf_digest_from_base<EF: FieldX>(circuit: &mut CircuitBuilder
 /// arity4_prepare by value (ASSUMED here; its schedule is unit a4sched, the cap selection unit mmcs): no table row, no constraint
 pub uninterp spec fn sp_schedule(dims: Seq<Dimensions>, num_roots: int) -> Seq<Arity4PathStep>;
 pub uninterp spec fn sp_leaf_rows(dims: Seq<Dimensions>) -> Seq<usize>;
+/// native MerkleTreeHidingMmcs is generic over the arity; fri/verifier.rs drops the salt targets for arity-4 configurations
+pub uninterp spec fn arity4_route_covers_hiding_commitments() -> bool;
 pub uninterp spec fn sp_selected_root<F: Field>(cap: Seq<Seq<F>>, bits: Seq<F>, dims: Seq<Dimensions>) -> Seq<F>;
 #[verifier::external_body]
 pub fn arity4_prepare<EF: FieldX>(circuit: &mut CircuitBuilder<EF>, permutation_config: PermConfig, commitment_cap: &[Vec<Target>], dimensions: &[Dimensions], index_bits: &[Target])
@@ -444,6 +446,8 @@ def build():
         && (forall|k: int| 0 <= k < opened_base_coeffs@.len() ==> old(circuit).has_all(#[trigger] opened_base_coeffs@[k]@))''')
     OV = 'vals2(old(circuit), opened_base_coeffs@)'
     SCH = 'sp_schedule(dimensions@, commitment_cap@.len() as int)'
+    # open finding (round 17): the arity-4 route takes no salts: an opening of a hiding (salted) arity-4 commitment is hashed without them and every honest opening is rejected in-circuit
+    d.ensures('H_the_arity4_route_hashes_the_salts_of_a_hiding_commitment', 'ret is Ok ==> arity4_route_covers_hiding_commitments()')
     d.ensures('a_batch_of_another_size_is_an_error', 'dimensions@.len() != opened_base_coeffs@.len() ==> ret is Err')
     d.ensures('injected_levels_hashed_in_level_order_then_the_leaf_layer_as_the_chain_seed_then_the_native_walk', f'''ret is Ok ==> ({{
             let c0 = old(circuit); let ov = {OV}; let sch = {SCH}; let n = sch.len() as int; let lr = sp_leaf_rows(dimensions@);
